@@ -1,0 +1,21 @@
+//go:build verif
+// +build verif
+
+package ed25519
+
+// verifHooks reports whether the verification hooks are compiled in.
+const verifHooks = true
+
+// VerifBatchFallback, when non-nil, is called by VerifyBatch each time a
+// chunk of the batch is decided by the per-signature fallback rather than
+// by the batch equation, with the offset of the chunk's first entry and
+// the number of entries in the chunk.
+//
+// It only exists when building with the `verif` build tag.
+var VerifBatchFallback func(offset, size int)
+
+func verifNoteFallback(offset, size int) {
+	if f := VerifBatchFallback; f != nil {
+		f(offset, size)
+	}
+}
